@@ -8,6 +8,7 @@ import (
 	"time"
 
 	"github.com/olive-io/bpmn/schema"
+	bpmn "github.com/olive-io/bpmn/v2"
 	"github.com/olive-io/bpmn/v2/pkg/clock"
 	"github.com/olive-io/bpmn/v2/pkg/timer"
 	"github.com/olive-io/bpmn/v2/verifrt"
@@ -299,6 +300,115 @@ func procBody(d tdef, steps int) func() {
 	}
 }
 
+// process level, richer shapes. "behind": start -> t0 -> catch(timer) -> t -> end (firings before
+// the token arrives find nobody listening and are lost); "loop": start -> M -> catch(timer) -> t
+// -> X -(again)-> M | end (the catch event is re-entered; the timer runs on from the creation of
+// the instance, so each visit continues on the next firing it listens for). The environment
+// moves the clock or answers the pending task, every choice explored.
+func procBody2(d tdef, shape string, steps int) func() {
+	g := drv.NewGraph("c13q_" + shape + "_" + d.name)
+	s, c, t, e := g.Add(drv.Start, "start"), g.Add(drv.Catch, "cT"), g.Add(drv.Task, "t"), g.Add(drv.End, "end")
+	c.Defs = []drv.EventDef{{Kind: "timer", Sub: d.sub, Ref: d.text}}
+	switch shape {
+	case "behind":
+		t0 := g.Add(drv.Task, "t0")
+		g.Link(s, t0, nil)
+		g.Link(t0, c, nil)
+		g.Link(c, t, nil)
+		g.Link(t, e, nil)
+	case "loop":
+		m, x := g.Add(drv.XOR, "M"), g.Add(drv.XOR, "X")
+		t.Results, t.RTypes = []string{"again"}, []string{"boolean"}
+		g.Link(s, m, nil)
+		g.Link(m, c, nil)
+		g.Link(c, t, nil)
+		g.Link(t, x, nil)
+		g.Link(x, m, drv.Var("again"))
+		g.LinkDefault(x, e)
+	}
+	defs := g.Parse()
+	return func() {
+		sig := "C13/process-" + shape
+		r := drv.Open(g, defs, drv.OpenOpts{Timer: true, Vars: map[string]any{"again": false}})
+		var w *drv.Wait
+		r.AfterStart = func() { w = r.WaitComplete(nil) }
+		r.StartAll()
+		m := newModel(d)
+		now := base
+		var hist []string
+		pos := "catch"
+		if shape == "behind" {
+			pos = "t0"
+		}
+		wantT, visits := 0, 0
+		for step := 0; step <= steps; step++ {
+			verifrt.WaitIdle()
+			if !r.StartReturned {
+				h.Fail(sig+"/startall-returns", "%s: StartAll has not returned", d.name)
+				return
+			}
+			var pend []string
+			if pos == "t0" || pos == "t" {
+				pend = []string{pos}
+			}
+			if got := r.PendingIDs(); fmt.Sprint(got) != fmt.Sprint(pend) {
+				clause := "continues-too-often"
+				if len(got) < len(pend) {
+					clause = "does-not-continue"
+				}
+				h.Fail(sig+"/"+clause, "%s %q: after %v the unanswered requests are %v, want %v (the task behind the timer has been requested %d times, want %d)", d.name, d.text, hist, got, pend, r.Requests("t"), wantT)
+				return
+			}
+			if got := r.Requests("t"); got != wantT {
+				h.Fail(sig+"/continues-too-often", "%s %q: after %v the task behind the timer catch event was requested %d times, want %d", d.name, d.text, hist, got, wantT)
+				return
+			}
+			if step == steps {
+				break
+			}
+			k := verifrt.Choose(6)
+			if k == 5 {
+				if len(pend) == 0 {
+					k = 4
+				} else {
+					hist = append(hist, "answer "+pos)
+					pt := r.Pending(pos)
+					switch {
+					case pos == "t0":
+						r.Answer(pt)
+						pos = "catch"
+					case shape == "loop" && visits < 2:
+						visits++
+						r.Answer(pt, bpmn.DoWithResults(map[string]any{"again": true}))
+						pos = "catch"
+					case shape == "loop":
+						r.Answer(pt, bpmn.DoWithResults(map[string]any{"again": false}))
+						pos = "done"
+					default:
+						r.Answer(pt)
+						pos = "done"
+					}
+					continue
+				}
+			}
+			hist = append(hist, moveNames[k])
+			tt := target(m, now, k)
+			now = tt
+			if m.move(tt) > 0 && pos == "catch" {
+				pos = "t"
+				wantT++
+			}
+			r.Clock.Set(tt)
+		}
+		if pos == "done" && (w == nil || !w.Returned || !w.Result) {
+			h.Fail(sig+"/completes", "%s: every token is gone after %v but WaitUntilComplete has not returned true; live: %v", d.name, hist, verifrt.LiveRepoGoroutines())
+		}
+		if len(r.Grammar) > 0 {
+			h.Fail("C09/engine/causal-order", "%s", r.Grammar[0])
+		}
+	}
+}
+
 func init() {
 	h.Register("C13", func(tier string) ([]*h.Scn, []*h.Plain) {
 		var out []*h.Scn
@@ -324,6 +434,25 @@ func init() {
 				out = append(out, &h.Scn{Name: fmt.Sprintf("C13/process/%s/moves<=3/d0", d.name), Body: procBody(d, 3), Opts: verifrt.Options{Bound: 0, UseCache: true}, Weight: 200})
 				if thorough {
 					out = append(out, &h.Scn{Name: fmt.Sprintf("C13/process/%s/moves<=2/d1", d.name), Body: procBody(d, 2), Opts: verifrt.Options{Bound: 1, UseCache: true}, Weight: 2000, Split: 8})
+				}
+			}
+		}
+		for _, shape := range []string{"behind", "loop"} {
+			for _, d := range defs() {
+				d := d
+				if shape == "loop" && !d.cycle {
+					continue // a one-shot timer has nothing left for a second visit
+				}
+				if !thorough && (d.name == "R0" || d.name == "R1" || d.name == "R-start-end") {
+					continue
+				}
+				n := 5
+				if thorough {
+					n = 7
+				}
+				out = append(out, &h.Scn{Name: fmt.Sprintf("C13/process-%s/%s/steps<=%d/d0", shape, d.name, n), Body: procBody2(d, shape, n), Opts: verifrt.Options{Bound: 0, UseCache: true}, Weight: 400})
+				if thorough || d.name == "R2" || d.name == "duration" {
+					out = append(out, &h.Scn{Name: fmt.Sprintf("C13/process-%s/%s/steps<=3/d1", shape, d.name), Body: procBody2(d, shape, 3), Opts: verifrt.Options{Bound: 1, UseCache: true}, Weight: 3000, Split: 8})
 				}
 			}
 		}
